@@ -813,9 +813,15 @@ impl ValveServer {
             }
         }
         if std::mem::take(&mut self.partial_next) {
-            // only the first datagram of a split answer gets through (a single datagram: nothing does)
+            // only part of a split answer gets through: mostly its first datagram, else all but one that
+            // is left out at random (a single datagram: nothing does)
             if frags.len() > 1 {
-                seq.truncate(1);
+                if cx.draw(2) == 0 {
+                    seq.truncate(1);
+                } else {
+                    let left_out = cx.draw(frags.len() as u64) as usize;
+                    seq.retain(|i| *i != left_out);
+                }
             } else {
                 seq.clear();
             }
